@@ -42,6 +42,18 @@ def load_mutants(prop: str):
                 out.append((f"revert-fix {diff} ({name})", "fire", [("@revert", diff, "")]))
     except ModuleNotFoundError:
         pass
+    # seeded changes from independent sub-agents: every check that caught one must keep catching it
+    import json as _json
+
+    seeded = Path(__file__).resolve().parent.parent / "seeded"
+    if seeded.is_dir():
+        for meta in sorted(seeded.glob("*/meta.json")):
+            try:
+                d = _json.loads(meta.read_text())
+            except Exception:
+                continue
+            if prop.upper() in d.get("caught_by", []):
+                out.append((f"seeded {meta.parent.name}", "fire", [("@patch", str(meta.parent / "patch.diff"), "")]))
     return out
 
 
@@ -98,6 +110,14 @@ def _run_variant(args):
     try:
         shutil.copytree(Path(src_root) / "abtem", tmp / "abtem", ignore=shutil.ignore_patterns("__pycache__", "*.pyc"))
         for rel, old, new in edits:
+            if rel == "@patch":
+                import subprocess
+
+                r = subprocess.run(["patch", "-p1", "--batch", "--silent", "-i", old], cwd=tmp,
+                                   capture_output=True, text=True)
+                if r.returncode != 0:
+                    return (prop, name, expect, "SKIPPED", f"seeded patch does not apply: {r.stdout[:100]}")
+                continue
             if rel == "@revert":
                 import subprocess
 
@@ -120,7 +140,7 @@ def _run_variant(args):
             import ast as _ast
 
             for rel, _, _ in edits:
-                if rel != "@revert":
+                if rel not in ("@revert", "@patch"):
                     _ast.parse((tmp / rel).read_text())
         except SyntaxError as e:
             return (prop, name, expect, "BROKEN-VARIANT", str(e))
